@@ -76,7 +76,10 @@ Step(e) ==
            \/ /\ e.act \in {"Stop", "Remove", "Delete"} /\ k2.chan # K.chan
               /\ K' = KeepsChan(K, k2) /\ Flag("C09-withdraw-keeps-channel-request")
   \/ e.a = "Start" /\ ~K.run /\ e.res = "ok" /\ e.gate = "start" /\ K' = StartK(K)
-  \/ e.a = "StopKeeper" /\ K.run /\ K.plt.pc # "popped" /\ e.res = "ok" /\ K' = StopK(K)
+  \/ /\ e.a = "StopKeeper" /\ K.run /\ K.plt.pc # "popped" /\ e.res = "ok"
+     \* requests still in the channel are kept, or received and dropped with the queue (the plotter's select may
+     \* take either branch): no property says which
+     /\ (K' = StopK(K) \/ K' = [StopK(K) EXCEPT !.chan = <<>>])
   \/ /\ e.a = "P"
      /\ \/ e.gate = "drained" /\ CanRecv(K) /\ K' = Recv(K)
         \/ e.gate = "popped" /\ CanPop(K, e.w, e.m) /\ K' = Pop(K, e.w, e.m)
